@@ -103,6 +103,12 @@ def check_outputs(b, sol, hist, times, eps, viol, stats, *, label, compare_first
                 viol.append({"inv": "RTS-cov", "msg": f"[{label}] smoothed covariance at output {i} (t={times[i]:.6g}) differs from the reference RTS posterior: {ec:.2e} (tol {tol_c:.1e})"})
         if not onp.all(onp.isfinite(m)) or not onp.all(onp.isfinite(P)):
             viol.append({"inv": "RTS-finite", "msg": f"[{label}] non-finite smoothing marginal at output {i}"})
+    # the backward gain G = P^f Phi^T (Phi P^f Phi^T + Q)^-1 is an exact function of the library's own filtering state
+    # (verified step-locally in 50 digits: 9e-13), so a forward-pass covariance error e re-appears in the gain -- and in the
+    # cross-covariances -- multiplied by the conditioning of the predicted covariance it solves with (observed: e = 2.9e-8,
+    # cond 1.5e6, cross-covariance 1.1e-2, unchanged under 1e-12 perturbations of the steps)
+    tol_x = max(tol_x, 3.0 * min(kP, 1e16) * max(worst_c, 1e-10))
+    stats["tol_crosscov_max"] = max(stats.get("tol_crosscov_max", 0.0), tol_x)
     # backward factorisation: conditional[i] is x_i | x_{i+1}
     post = sol.solution_full.posterior
     cond = post.conditional
@@ -145,9 +151,12 @@ def check_outputs(b, sol, hist, times, eps, viol, stats, *, label, compare_first
             Creal = A @ P_next
             if onp.max(onp.abs(onp.diag(refs[i][2]))) > 0:
                 ex = compare.cross_err(Creal, Cref, refs[i][2], refs[i + 1][2], nk)
+                # size of the terms of the product A P (formed here, in double, from the returned arrays), same norm
+                amp_x = compare.cross_err(onp.abs(A) @ onp.abs(P_next), onp.zeros_like(Cref), refs[i][2], refs[i + 1][2], nk)
                 worst_x = max(worst_x, ex)
-                if ex > tol_x:
-                    viol.append({"inv": "RTS-crosscov", "msg": f"[{label}] cross-covariance between outputs {i} and {i + 1} differs from the reference joint smoothing law: {ex:.2e}"})
+                stats["worst_crosscov_over_terms"] = max(stats.get("worst_crosscov_over_terms", 0.0), ex / max(amp_x, 1e-300))
+                if ex > tol_x + 1e-14 * amp_x:
+                    viol.append({"inv": "RTS-crosscov", "msg": f"[{label}] cross-covariance between outputs {i} and {i + 1} differs from the reference joint smoothing law: {ex:.2e} (tol {tol_x + 1e-14 * amp_x:.1e}, size of the terms {amp_x:.1e})"})
     # (3) one distant pair
     if check_cov and N >= 3 and idx[-1] > idx[0] and onp.max(onp.abs(onp.diag(refs[0][2]))) > 0:
         Achain = As[0]
@@ -157,13 +166,17 @@ def check_outputs(b, sol, hist, times, eps, viol, stats, *, label, compare_first
         Cref = Gref @ refs[-1][1]
         Creal = Achain @ real[-1][1]
         ex = compare.cross_err(Creal, Cref, refs[0][2], refs[-1][2], nk)
-        if ex > 10 * tol_x:
+        Aabs = onp.abs(As[0])
+        for A in As[1:]:
+            Aabs = Aabs @ onp.abs(A)
+        amp_x = compare.cross_err(Aabs @ onp.abs(real[-1][1]), onp.zeros_like(Cref), refs[0][2], refs[-1][2], nk)
+        if ex > 10 * tol_x + 1e-14 * amp_x:
             viol.append({"inv": "RTS-crosscov", "msg": f"[{label}] cross-covariance between the first and the last output differs from the reference: {ex:.2e}"})
     stats["worst_mean"] = max(stats.get("worst_mean", 0.0), worst_m)
     stats["worst_cov"] = max(stats.get("worst_cov", 0.0), worst_c)
     stats["worst_crosscov"] = max(stats.get("worst_crosscov", 0.0), worst_x)
     stats["kappa_max"] = kap
-    return dict(nodes=nodes, idx=idx, cls=cls, refs=refs, real=real, tol_c=tol_c, check_cov=check_cov)
+    return dict(nodes=nodes, idx=idx, cls=cls, refs=refs, real=real, tol_c=tol_c, check_cov=check_cov, hloc=hloc, qd=(q, d))
 
 
 def check_vs_filtering(b, sol, info, times, viol, *, label, last_ends_at_T):
@@ -175,8 +188,12 @@ def check_vs_filtering(b, sol, info, times, viol, *, label, last_ends_at_T):
         mf, Pf = embed.normal_np_at(filt, i)
         ms, Ps = info["real"][i]
         vf, vs = onp.diag(Pf), onp.diag(Ps)
-        scale = onp.diag(info["refs"][i][2]) + 1e-300
-        if info["check_cov"] and onp.any(vs > vf * (1 + 1e-9) + 1e-7 * scale):
+        # the yardstick of the covariance comparison (variances floored at 1e-12 x the largest Nordsieck-scaled one):
+        # a variance of 1e-22 next to ones of 1e-6 carries only rounding noise
+        scale = compare.floored_sd(info["refs"][i][2], (*info["qd"], info["hloc"][i])) ** 2 + 1e-300
+        # same accuracy class as the covariance comparison itself (q >= 6 / ill-conditioned predictions: the backward
+        # pass returns variances a few 1e-7 above the filtered ones where the exact ones are a few 1e-16 below)
+        if info["check_cov"] and onp.any(vs > vf * (1 + 1e-9) + max(1e-7, info["tol_c"]) * scale):
             viol.append({"inv": "RTS-variance", "msg": f"[{label}] smoothed variance exceeds filtered variance at output {i}"})
     if last_ends_at_T:
         mf, Pf = embed.normal_np_at(filt, N - 1)
